@@ -402,9 +402,23 @@ class StmtMixin:
 
     # ------------------------------------------------------------------ control flow
     def st_If(self, node, st):
+        t = node.test
+        narrow = None          # ``if x is None`` / ``if x is not None``: on the not-None side x is its value
+        if isinstance(t, ast.Compare) and isinstance(t.left, ast.Name) and len(t.ops) == 1 \
+                and isinstance(t.ops[0], (ast.Is, ast.IsNot)) and isinstance(t.comparators[0], ast.Constant) \
+                and t.comparators[0].value is None:
+            narrow = (t.left.id, isinstance(t.ops[0], ast.IsNot))
+
         def after(s, c):
             out = []
             for s2, taken in self.branch(s, self.truth(c, s), 'if@%s' % node.lineno):
+                if narrow is not None and taken == narrow[1]:
+                    v = s2.lookup(narrow[0])
+                    if isinstance(v, VOpt):
+                        fid = s2.fid
+                        while fid is not None and narrow[0] not in s2.frames[fid]:
+                            fid = s2.frames[fid].get('__parent__')
+                        s2.frames[fid][narrow[0]] = v.inner
                 out += self.exec_block(node.body if taken else node.orelse, s2)
             return out
         return self.ev(node.test, st, after)
@@ -572,12 +586,12 @@ class StmtMixin:
                 for s1 in states:
                     res += self.exec_block(node.orelse, s1)
                 return res
-            s.snapshot('pre' + key)
             idx_name = '_i%s' % key[5:]
             s.env[idx_name] = VInt(0)
             s.env['_i'] = VInt(0)
             s.env['_it%s' % key[5:]] = L
             s.env['_it'] = L
+            s.snapshot('pre' + key)
             self.check_invs(s, key, spec, 'inv-init', node)
             mods = self.havoc_loop(node, s, spec)
             if itrec is not None:
